@@ -103,8 +103,8 @@ pub trait OneApi: Sized {
 }
 
 // ---------------------------------------------------------------- borrowed
-pub struct BOneshot<M: RawMutex + 'static>(&'static GenericOneshotChannel<M, Val>);
-pub struct BBroadcast<M: RawMutex + 'static>(&'static GenericOneshotBroadcastChannel<M, Val>);
+pub struct BOneshot<M: RawMutex + 'static>(crate::util::Leaked<GenericOneshotChannel<M, Val>>);
+pub struct BBroadcast<M: RawMutex + 'static>(crate::util::Leaked<GenericOneshotBroadcastChannel<M, Val>>);
 
 macro_rules! borrowed_api {
     ($name:ident, $chan:ident, $bc:expr) => {
@@ -113,7 +113,8 @@ macro_rules! borrowed_api {
             const BROADCAST: bool = $bc;
             const SHARED: bool = false;
             fn new() -> Self {
-                $name(Box::leak(Box::new($chan::new())))
+                let owner = crate::util::Leaked::new($chan::new());
+                $name(owner)
             }
             fn has_tx(&self) -> bool {
                 true
@@ -122,23 +123,23 @@ macro_rules! borrowed_api {
                 1
             }
             fn send(&self, v: Val) -> Result<(), ChannelSendError<Val>> {
-                self.0.send(v)
+                self.0.get().send(v)
             }
             fn close(&self) -> CloseStatus {
-                self.0.close()
+                self.0.get().close()
             }
             fn receive(&self) -> Self::Fut {
-                self.0.receive()
+                self.0.get().receive()
             }
             fn inspect(&self, v: &mut dyn FnMut(Visit) -> bool) {
-                self.0.verif_inspect(v)
+                self.0.get().verif_inspect(v)
             }
             fn drop_tx(&mut self) {}
             fn clone_rx(&mut self) {}
             fn drop_rx(&mut self, _i: usize) {}
             fn destroy(self) {
                 // Safety: all futures have been dropped
-                unsafe { drop(Box::from_raw(self.0 as *const _ as *mut $chan<M, Val>)) }
+                unsafe { self.0.reclaim() }
             }
         }
     };
@@ -367,7 +368,7 @@ impl<A: OneApi> OneInner<A> {
                 }
             }
         }
-        let max_tags = if self.bounded { 3 } else { 4000 };
+        let max_tags = if self.bounded { 3 } else if cfg!(miri) { 300 } else { 4000 };
         if self.api.has_tx() && ((self.next_tag - self.base) as usize) < max_tags {
             out.push(Ev::new(SEND, 0, 0));
         }
@@ -527,7 +528,7 @@ impl<A: OneApi> OneInner<A> {
         self.post(ctx);
         if self.holders() > 0 {
             let empty = self.view.queues[0].is_empty() && self.view.prim.head == 0 && self.view.prim.tail == 0;
-            ctx.check("C01", "queue-empty-after-all-futures-dropped", true, empty, || "wait queue not empty at the end of the history".into());
+            ctx.check("C01", "queue-empty-after-all-futures-dropped", crate::slots::inspect_on(), empty, || "wait queue not empty at the end of the history".into());
         }
         self.held.clear();
         let n = self.next_tag;
